@@ -142,8 +142,8 @@ def ap_check_tx_validity():
         ],
         ensures=[
             C("exist", "res is Ok ==> forall|i: int| 0 <= i < tx.inputs@.len() ==> relevant_coins@.contains_key(#[trigger] tx.inputs@[i])", "C02", "C04"),
-            C("unlocked", "res is Ok && !lock_legacy(this.network, this.height) ==> forall|i: int| 0 <= i < tx.inputs@.len() ==> !new_stakes@.contains_key((#[trigger] tx.inputs@[i]).txhash) && !this.stakes@.contains_key(tx.inputs@[i].txhash)", "C13"),
-            C("approved", "res is Ok ==> forall|i: int| 0 <= i < tx.inputs@.len() ==> script_approves(spec_covenants_map(*tx), relevant_coins@[tx.inputs@[i]].coin_data.covhash, *tx, #[trigger] env_of(*tx, relevant_coins@, i, spec_last_header(*this)))", "C04"),
+            C("unlocked", "res is Ok && !lock_legacy(this.network, this.height) ==> forall|i: int| 0 <= i < tx.inputs@.len() ==> !new_stakes@.contains_key((#[trigger] tx.inputs@[i]).txhash) && !this.stakes@.contains_key(tx.inputs@[i].txhash)", "C13", "C02"),
+            C("approved", "res is Ok ==> forall|i: int| 0 <= i < tx.inputs@.len() ==> script_approves(spec_covenants_map(*tx), relevant_coins@[tx.inputs@[i]].coin_data.covhash, *tx, #[trigger] env_of(*tx, relevant_coins@, i, spec_last_header(*this)))", "C04", "C02"),
             C("balanced", "res is Ok ==> balanced(tx.kind, in_sums(tx.inputs@, relevant_coins@, tx.inputs@.len() as int), spec_total_outputs(*tx))", "C01", "C02"),
             C("errkind", "res is Err ==> !(res->Err_0 is WrongHeader)", "C06", char=True),
             C("locked_err", "(exists|i: int| 0 <= i < tx.inputs@.len() && (new_stakes@.contains_key((#[trigger] tx.inputs@[i]).txhash) || this.stakes@.contains_key(tx.inputs@[i].txhash))) && !lock_legacy(this.network, this.height) ==> res is Err", "C13"),
@@ -155,16 +155,17 @@ def ap_output_coins_from_tx():
 
 # ---- melmint.rs reward arithmetic / DoscMint (C18)
 def mm_microergs():
-    return dict(ensures=[C("memo", "res as nat == spec_microergs(height.0 as nat)", "C18", char=True)])
+    return dict(requires=[C("mfits", "microergs_fit(height.0 as nat)", note="C09 envelope of the memo table (proved contract: unit memo): the inflator of this height fits in u128 -- it grows by 1/2000000 per block and overflows near height 1.5e8")],
+                ensures=[C("memo", "res as nat == spec_microergs(height.0 as nat)", "C18", "C01")])
 
 def mm_dosc_to_erg():
-    return dict(requires=[C("fits", "spec_dosc_to_erg(height.0 as nat, real_ as int) <= u128::MAX",
+    return dict(requires=[C("mfits", "microergs_fit(height.0 as nat)", note="C09 envelope of the memo table (proved contract: unit memo): the inflator of this height fits in u128 -- it grows by 1/2000000 per block and overflows near height 1.5e8"), C("fits", "spec_dosc_to_erg(height.0 as nat, real_ as int) <= u128::MAX",
                             note="C09 envelope: the inflated reward fits in u128 (`expect` panics otherwise); needs a MelPoW proof of difficulty beyond ~64")],
-                ensures=[C("formula", "res as int == spec_dosc_to_erg(height.0 as nat, real_ as int)", "C18", char=True)])
+                ensures=[C("formula", "res as int == spec_dosc_to_erg(height.0 as nat, real_ as int)", "C18", "C01", char=True)])
 
 def mm_calculate_reward():
     return dict(requires=[C("speed", "dosc_speed != 0"), C("diff", "difficulty <= 100")],
-                ensures=[C("formula", "res as int == spec_reward(my_speed as int, dosc_speed as int, difficulty as nat, tip910)", "C18", char=True)])
+                ensures=[C("formula", "res as int == spec_reward(my_speed as int, dosc_speed as int, difficulty as nat, tip910)", "C18", "C01", char=True)])
 
 def ap_validate_doscmint():
     return dict(
@@ -225,7 +226,7 @@ def st_seal_full():
     return dict(requires=[C("inv", "state_inv(self) && pools_ok(self.pools@) && builtins_if_present(self)"), C("env", "seal_env(self) && reward_fresh(self)"), C("env909", "spec_tip(self.network, self.height, 950000) ==> tip909_env(spec_preseal(self))", note="C09 envelopes of apply_tip_909 (see its contract), on the state after settlement"),
                           C("fits", "self.tips.0 <= u128::MAX - 0x1_0000_0000_0000_0000_0000_0000_0000u128", note="C09 envelope: pending tips below 2^128 - 2^112")],
                 ensures=[C("det", "res.0 == spec_seal(self, action)", det=True),
-                         C("rel", "seal_rel(self, action, res.0) && res.1 == action", "C06", "C05", "C17"),
+                         C("rel", "seal_rel(self, action, res.0) && res.1 == action", "C06", "C05", "C17", "C01", "C15", "C16"),
                          C("action_tips", "sealed_ok(SealedState(res.0, action))", "C08", "C05"),
                          C("noaction", "action is None ==> res.0.fee_multiplier == self.fee_multiplier && res.0.tips == self.tips", "C17", "C05"),
                          C("frame", "res.0.network == self.network && res.0.height == self.height && res.0.history == self.history && res.0.transactions == self.transactions && res.0.stakes == self.stakes && res.0.dosc_speed == self.dosc_speed", "C07", "C06"),
@@ -243,13 +244,13 @@ def st_apply_tx_batch():
     return dict(requires=[C("pre", "batch_pre(*old(self), txx@)")],
                 ensures=[C("noop", "res is Err ==> *final(self) == *old(self)", "C02"),
                          C("errkind", "res is Err ==> !(res->Err_0 is WrongHeader)", "C06", char=True),
-                         C("ok", "res is Ok ==> batch_result(*old(self), txx@, *final(self))", "C02", "C06")])
+                         C("ok", "res is Ok ==> batch_result(*old(self), txx@, *final(self))", "C02", "C06", "C01")])
 
 def ts_iter():
     return dict(ensures=[C("enum", "exists|ks: Seq<TxHash>| is_enum(self@, ks) && res@.len() == ks.len() && (forall|i: int| 0 <= i < ks.len() ==> *(#[trigger] res@[i]) == self@[ks[i]])", "C07")])
 def ap_batch_impl():
     return dict(requires=[C("pre", "batch_pre(*this, txx@)")],
-                ensures=[C("ok", "res is Ok ==> batch_result(*this, txx@, res->Ok_0)", "C02", "C06", "C03"),
+                ensures=[C("ok", "res is Ok ==> batch_result(*this, txx@, res->Ok_0)", "C02", "C06", "C03", "C01"),
                          C("errkind", "res is Err ==> !(res->Err_0 is WrongHeader)", "C06", char=True)])
 
 def cm_new_abs():
@@ -289,11 +290,11 @@ def ap_create_next_state():
         C("frame", """res is Ok ==> res->Ok_0.network == next_state.network && res->Ok_0.height == next_state.height && res->Ok_0.history == next_state.history
                && res->Ok_0.fee_multiplier == next_state.fee_multiplier && res->Ok_0.dosc_speed == next_state.dosc_speed
                && res->Ok_0.pools == next_state.pools && res->Ok_0.stakes == next_state.stakes""", "C02", "C05", "C17"),
-        C("min_fee", "res is Ok ==> forall|q: int| 0 <= q < transactions@.len() ==> (#[trigger] transactions@[q]).fee.0 >= spec_base_fee(transactions@[q], next_state.fee_multiplier)", "C05"),
+        C("min_fee", "res is Ok ==> forall|q: int| 0 <= q < transactions@.len() ==> (#[trigger] transactions@[q]).fee.0 >= spec_base_fee(transactions@[q], next_state.fee_multiplier)", "C05", "C02"),
         C("fee_split", """res is Ok ==> res->Ok_0.fee_pool.0 as int == next_state.fee_pool.0 + fsum(transactions@, min_fee_of(next_state.fee_multiplier))
                && res->Ok_0.tips.0 as int == next_state.tips.0 + fsum(transactions@, tip_of(next_state.fee_multiplier))""", "C05", "C01"),
         C("fee_reject", """res is Err && res->Err_0 is InsufficientFees ==> exists|q: int, m: u128| 0 <= q < transactions@.len()
-               && (#[trigger] transactions@[q]).fee.0 < #[trigger] spec_base_fee(transactions@[q], m) && (res->Err_0->InsufficientFees_0).0 == spec_base_fee(transactions@[q], m)""", "C05", char=True,
+               && (#[trigger] transactions@[q]).fee.0 < #[trigger] spec_base_fee(transactions@[q], m) && (res->Err_0->InsufficientFees_0).0 == spec_base_fee(transactions@[q], m)""", "C05", "C02", char=True,
           note="a batch is refused for fees only if some transaction pays strictly less than its minimum fee (the multiplier is existentially quantified: Verus loses the initial value of a `mut` parameter inside later loops)"),
         C("txs", "res is Ok ==> forall|h: TxHash| #[trigger] res->Ok_0.transactions@.contains_key(h) <==> (next_state.transactions@.contains_key(h) || in_batch(transactions@, transactions@.len() as int, h))", "C02", "C06"),
         C("faucets", """res is Ok ==> forall|q: int| 0 <= q < transactions@.len() && (#[trigger] transactions@[q]).kind == TxKind::Faucet ==>
@@ -302,7 +303,7 @@ def ap_create_next_state():
         C("wf", "res is Ok ==> res->Ok_0.coins.wf() && origin_ok(res->Ok_0.coins@.coins)", "C20"),
         C("counts", "res is Ok && is_tip_906 ==> counts_ok(res->Ok_0.coins@)", "C20"),
         C("counts_frame", "res is Ok && !is_tip_906 ==> res->Ok_0.coins@.counts == next_state.coins@.counts", "C20"),
-        C("fee_total", "res is Ok ==> res->Ok_0.fee_pool.0 + res->Ok_0.tips.0 == next_state.fee_pool.0 + next_state.tips.0 + fsum(transactions@, fee_of())", "C05", "C01"),
+        C("fee_total", "res is Ok ==> res->Ok_0.fee_pool.0 + res->Ok_0.tips.0 == next_state.fee_pool.0 + next_state.tips.0 + fsum(transactions@, fee_of())", "C05", "C01", "C03"),
         C("errkind", "res is Err ==> !(res->Err_0 is WrongHeader)", "C06", char=True),
         C("keyed", "res is Ok && txs_keyed(next_state.transactions@) ==> txs_keyed(res->Ok_0.transactions@)", "C02", "C15"),
     ])
@@ -316,8 +317,8 @@ def ap_load_relevant_coins():
                  C("err", "res is Err ==> res->Err_0 is MalformedTx || res->Err_0 is NonexistentCoin", "C02", char=True)])
 
 def mm_extract_pool_keys():
-    return dict(ensures=[C("keys", "forall|k: PoolKey| #[trigger] res@.contains(k) <==> mentions(old(transactions)@, k)", "C15", "C16"),
-                         C("once", "res@.no_duplicates()", "C15", "C16", note="each pool named by the block's requests is settled exactly once"),
+    return dict(ensures=[C("keys", "forall|k: PoolKey| #[trigger] res@.contains(k) <==> mentions(old(transactions)@, k)", "C15", "C16", "C03"),
+                         C("once", "res@.no_duplicates()", "C15", "C16", "C03", note="each pool named by the block's requests is settled exactly once"),
                          C("sorted", "pk_sorted(res@)", "C03"),
                          C("frame", "final(transactions)@ == old(transactions)@", "C15")])
 
@@ -328,7 +329,7 @@ def mm_process_swaps():
     d = mm_phase("swaps")
     d["ensures"] = d["ensures"] + [
         C("exact", """exists|reqs: Seq<Transaction>| #[trigger] selected(state.transactions@, reqs, swap_pred(state)) && swap_reqs_ok(state.pools@, state.coins@.coins, reqs)
-               && swaps_done(state.pools@, state.coins@.coins, state.height, reqs, mentioned_set(reqs), res.pools@, res.coins@.coins)""", "C15", "C01", "C16",
+               && swaps_done(state.pools@, state.coins@.coins, state.height, reqs, mentioned_set(reqs), res.pools@, res.coins@.coins)""", "C15", "C01", "C16", "C03",
           note="every pool named by a genuine swap request is settled exactly once, at one price for both directions; nothing else moves"),
         C("mono", "liqs_mono(state.pools@, res.pools@) && ids_sub(state.coins@.coins, res.coins@.coins)", "C16")]
     return d
@@ -365,7 +366,7 @@ def mm_process_deposits():
     d["requires"] = d["requires"] + [C("fits", "deposit_weights_fit(state.transactions@)", note="C09 envelope: see deposit_weights_fit")]
     d["ensures"] = d["ensures"] + [
         C("exact", """exists|reqs: Seq<Transaction>, mint: spec_fn(PoolKey) -> int| #[trigger] selected(state.transactions@, reqs, deposit_pred(state)) && dep_reqs_ok(state.coins@.coins, reqs)
-               && #[trigger] deps_done(state.pools@, state.coins@.coins, state.height, deposit_legacy(state.network, state.height), reqs, mentioned_set(reqs), mint, res.pools@, res.coins@.coins)""", "C15", "C01", "C16",
+               && #[trigger] deps_done(state.pools@, state.coins@.coins, state.height, deposit_legacy(state.network, state.height), reqs, mentioned_set(reqs), mint, res.pools@, res.coins@.coins)""", "C15", "C01", "C16", "C03",
           note="every pool named by a genuine deposit request is settled exactly once; liquidity handed out never exceeds what the pool records"),
         C("mono", "liqs_mono(state.pools@, res.pools@) && ids_sub(state.coins@.coins, res.coins@.coins)", "C16")]
     return d
@@ -375,16 +376,18 @@ def mm_process_withdrawals():
     d["requires"] = d["requires"] + [C("env", "wd_env(state.transactions@, state.pools@, state.coins@.coins, spec_tip(state.network, state.height, 180000))", note="C16 backing invariant as an envelope: see wd_env")]
     d["ensures"] = d["ensures"] + [
         C("exact", """exists|reqs: Seq<Transaction>, wl: spec_fn(PoolKey) -> int, wr: spec_fn(PoolKey) -> int| #[trigger] selected(state.transactions@, reqs, withdraw_pred(state)) && wd_reqs_ok(state.pools@, state.coins@.coins, reqs)
-               && #[trigger] wds_done(state.pools@, state.coins@.coins, state.height, reqs, mentioned_set(reqs), wl, wr, res.pools@, res.coins@.coins)""", "C15", "C01", "C16",
+               && #[trigger] wds_done(state.pools@, state.coins@.coins, state.height, reqs, mentioned_set(reqs), wl, wr, res.pools@, res.coins@.coins)""", "C15", "C01", "C16", "C03",
           note="every pool named by a genuine withdrawal request is settled exactly once: exactly the redeemed liquidity is retired, payouts leave the reserves and are split pro rata"),
         C("ids", "ids_new(state.coins@.coins, res.coins@.coins)", "C20", "C02", note="withdrawal settlement introduces no coin id other than (hash of a request, 1)")]
     return d
 
 def mm_dosc_inflator():
-    return dict(ensures=[C("ratio", "res@ == (num::rational::Frac { n: spec_microergs(height.0 as nat) as int, d: 1_000_000 })", "C18", char=True)])
+    return dict(requires=[C("mfits", "microergs_fit(height.0 as nat)", note="C09 envelope of the memo table (proved contract: unit memo): the inflator of this height fits in u128 -- it grows by 1/2000000 per block and overflows near height 1.5e8")],
+                ensures=[C("ratio", "res@ == (num::rational::Frac { n: spec_microergs(height.0 as nat) as int, d: 1_000_000 })", "C18", "C01", char=True)])
 
 def mm_process_pegging():
     d = mm_phase("pegging")
+    d["requires"] = d["requires"] + [C("mfits", "microergs_fit(state.height.0 as nat)", note="C09 envelope of the memo table (see microergs_per_dosc)")]
     d["ensures"] = d["ensures"] + [
         C("pegged", """res.coins == state.coins && res.pools@.dom() == state.pools@.dom() && (forall|k: PoolKey| k != pk_mel_sym() && state.pools@.contains_key(k) ==> #[trigger] res.pools@[k] == state.pools@[k])
                && res.pools@[pk_mel_sym()].liqs == state.pools@[pk_mel_sym()].liqs && pool_live(res.pools@[pk_mel_sym()])""", "C01", "C16", "C15",
